@@ -228,7 +228,17 @@ func (s *serverSocket) close(reason Reason, err error) {
 
 		defer s.getCallbacks().OnClose(reason, err)
 
-		if reason != ReasonTransportClose && reason != ReasonTransportError {
+		if reason == ReasonPingTimeout {
+			// The peer is unresponsive. Closing a WebSocket transport performs the close
+			// handshake and waits up to 5 seconds for the peer's reply: do not delay
+			// the report of the timeout (OnClose) by that.
+			s.transportMu.RLock()
+			t := s.transport
+			s.transportMu.RUnlock()
+			if t != nil {
+				go t.Close()
+			}
+		} else if reason != ReasonTransportClose && reason != ReasonTransportError {
 			s.transportMu.RLock()
 			defer s.transportMu.RUnlock()
 			if s.transport != nil {
